@@ -262,7 +262,10 @@ func TestAccounting(t *testing.T) {
 						}
 					}
 				}
-				opts := []sentinel.EntryOption{sentinel.WithSlotChain(chain), sentinel.WithBatchCount(batch), sentinel.WithFlag(flag)}
+				opts := []sentinel.EntryOption{sentinel.WithSlotChain(chain), sentinel.WithFlag(flag)}
+				if !(batch == 1 && rapid.Bool().Draw(t, "plainCall")) { // acquire count 1 either explicitly or by leaving the option out
+					opts = append(opts, sentinel.WithBatchCount(batch))
+				}
 				if inbound {
 					opts = append(opts, sentinel.WithTrafficType(base.Inbound))
 				}
